@@ -556,6 +556,32 @@ func (vp *VerifPair) RunACLRound(ctx context.Context, kind string, last uint64) 
 	return 0, false, fmt.Errorf("unknown ACL kind %q", kind)
 }
 
+// RunFedRound executes one real federation-state round in the secondary: the
+// IndexReplicator.Replicate loop body of replication.go driving the real
+// FederationStateReplicator delegate, exactly as NewServer wires them.
+func (vp *VerifPair) RunFedRound(ctx context.Context, last uint64) (uint64, bool, error) {
+	ir := &IndexReplicator{
+		Delegate: &FederationStateReplicator{srv: vp.S, gatewayLocator: vp.S.gatewayLocator},
+		Logger:   hclog.NewNullLogger(),
+	}
+	return ir.Replicate(ctx, last, hclog.NewNullLogger())
+}
+
+// SetApplyLimits sets the per-second apply limits the round's loops turn into their ticker
+// (time.Second / limit): 1 makes the ticker fire once a second, so that a select between a
+// cancelled context and the ticker is decided by the context.
+func (vp *VerifPair) SetApplyLimits(n int) {
+	vp.S.config.ACLReplicationApplyLimit = n
+	vp.S.config.ConfigReplicationApplyLimit = n
+	vp.S.config.FederationStateReplicationApplyLimit = n
+}
+
+// SetReplicationToken swaps the secondary's replication token (a token without acl:write makes
+// the primary redact token secrets).
+func (vp *VerifPair) SetReplicationToken(tok string) {
+	vp.S.tokens.UpdateReplicationToken(tok, token.TokenSourceConfig)
+}
+
 // RemoteIndex is the index the primary's list endpoint reports to the secondary
 // right now (the same fetch the round starts with, MinQueryIndex 0 = non-blocking).
 func (vp *VerifPair) RemoteIndex(kind string) (uint64, error) {
@@ -578,6 +604,9 @@ func (vp *VerifPair) RemoteIndex(kind string) (uint64, error) {
 			return 0, err
 		}
 		return r.Index, nil
+	case "fed":
+		_, _, idx, err := (&FederationStateReplicator{srv: vp.S}).FetchRemote(0)
+		return idx, err
 	case "cfg":
 		r, err := vp.S.fetchConfigEntries(0)
 		if err != nil {
